@@ -49,8 +49,8 @@ type Task struct {
 	signaled bool
 	// held locks (for diagnostics)
 	nlocks int
-	parks int
-	Local map[string]any
+	parks  int
+	Local  map[string]any
 }
 
 type lockState struct {
@@ -78,27 +78,27 @@ type Config struct {
 	// Stall, if set, is consulted at every scheduling point of a task that holds
 	// the token; a positive duration makes the task sleep that long (simulated)
 	// before it parks: a stalled goroutine / slow node.
-	Stall func(site string, draw func() uint64) time.Duration
-	MaxDepth  int // a task whose stack is deeper than this many frames is killed and reported (0 = off)
+	Stall    func(site string, draw func() uint64) time.Duration
+	MaxDepth int // a task whose stack is deeper than this many frames is killed and reported (0 = off)
 }
 
 // Outcome flags of a run.
 type Outcome struct {
-	Steps       int64
-	SimTime     time.Duration
-	TraceHash   uint64
-	SchedHash   uint64 // hash of the (task, site) sequence only
-	Deadlock    bool   // nothing eligible and nothing scheduled to happen
-	Budget      bool   // MaxSteps exceeded
-	Panic       string // a task panicked (value + stack)
-	Adopted     int    // goroutines adopted at a yield point without a deterministic spawn site
-	Tasks       int
-	LeakedTasks int
-	Events      []string
-	Tape        []uint16
-	BlockedDump string
+	Steps         int64
+	SimTime       time.Duration
+	TraceHash     uint64
+	SchedHash     uint64 // hash of the (task, site) sequence only
+	Deadlock      bool   // nothing eligible and nothing scheduled to happen
+	Budget        bool   // MaxSteps exceeded
+	Panic         string // a task panicked (value + stack)
+	Adopted       int    // goroutines adopted at a yield point without a deterministic spawn site
+	Tasks         int
+	LeakedTasks   int
+	Events        []string
+	Tape          []uint16
+	BlockedDump   string
 	DepthExceeded string // site + task of a runaway recursion
-	Probes map[string]int64
+	Probes        map[string]int64
 }
 
 type Sim struct {
@@ -1005,4 +1005,33 @@ func After[T any](v T, site string) T {
 // Bind builds the replacement of a method value such as mu.Unlock.
 func Bind[T any](fn func(*T, string), recv *T, site string) func() {
 	return func() { fn(recv, site) }
+}
+
+// MapKeys returns the keys of m in the order an instrumented `for range m`
+// visits them. Outside a simulation that is Go's own (randomised) order. Inside
+// one it is a function of the run's seed: sorted by printed key, then rotated
+// and possibly reversed by a value derived from the environment seed, so that a
+// run is repeatable and different runs still see different orders.
+func MapKeys[M ~map[K]V, K comparable, V any](m M) []K {
+	keys := make([]K, 0, len(m))
+	for k := range m {
+		keys = append(keys, k)
+	}
+	s := cur.Load()
+	if s == nil || len(keys) < 2 {
+		return keys
+	}
+	sort.Slice(keys, func(i, j int) bool { return fmt.Sprint(keys[i]) < fmt.Sprint(keys[j]) })
+	h := Mix(s.cfg.EnvSeed, uint64(len(keys))*0x51ed27)
+	n := len(keys)
+	rot := int(h % uint64(n))
+	out := make([]K, 0, n)
+	out = append(out, keys[rot:]...)
+	out = append(out, keys[:rot]...)
+	if (h>>33)&1 == 1 {
+		for i, j := 0, n-1; i < j; i, j = i+1, j-1 {
+			out[i], out[j] = out[j], out[i]
+		}
+	}
+	return out
 }
